@@ -163,10 +163,10 @@ def run(ctx):
     if DT.min.ticks != DT_MIN or DT.max.ticks != DT_MAX:
         ctx.violation(what="DateTime.min/max", observed=(DT.min.ticks, DT.max.ticks), required=(DT_MIN, DT_MAX))
     # ---- DateTime oracle ------------------------------------------------------------------
-    dts = boundary_ticks(rng, 40 if ctx.quick else 3000)
-    dts += [rng.randint(DT_MIN, DT_MAX) for _ in range(1500 if ctx.quick else 60000)]
+    dts = boundary_ticks(rng, 40 if ctx.quick else 1200)
+    dts += [rng.randint(DT_MIN, DT_MAX) for _ in range(1500 if ctx.quick else 25000)]
     dts += [rng.randint(-(1 << 40), 1 << 40) * T64 + rng.choice([0, 1, T64 - 1, T64 - 2, T64 // 2, rng.randrange(T64)])
-            for _ in range(500 if ctx.quick else 20000)]
+            for _ in range(500 if ctx.quick else 8000)]
     sf = structured_fractions()
     for w in (0, -1, 3_831_211_530, rng.randint(-(1 << 35), 1 << 37), DT_MIN // T64 + 1, DT_MAX // T64 - 1):
         dts += [w * T64 + f for f in (sf if not ctx.quick or w in (0, 3_831_211_530) else sf[::5])]
